@@ -161,8 +161,10 @@ def run(ck, fx, cg, tier):
         # template and logged value
         tpl = fmt_pieces(lw)
         ck.ob("R16.format", "ALLOCATE record", tpl == S9_ALLOC, loc(lw), "template %r, expected %r" % (tpl, S9_ALLOC))
-        if len(lw["args"]) >= 2:
-            a1 = peel(lw["args"][1])
+        from ..census import fmt_live_args
+        live = fmt_live_args(lw)
+        if len(live) >= 2:
+            a1 = peel(lw["args"][live[1]])
             is_size = a1.get("k") == "Field" and a1.get("name") == "size" and a1.get("adt") == HEAP
             ck.ob("R16.onepush", "allocate|logged value is the updated cumulative size", is_size, loc(lw),
                   "second field of the A record is %s" % ("Heap.size read after the update" if is_size else a1.get("k")))
@@ -260,6 +262,23 @@ def run(ck, fx, cg, tier):
     seeds, body_taint, tparams = shared.cli_taint(fx, cg)
     touched = sorted({fx.hir_by_did[d]["path"] for (d, i) in tparams if d in fx.hir_by_did})
     allowed = {A.get("evaluate_mem"), A.get("heap.set_size")}
+    # a private helper that only hands the number (or a closure holding it) on — calls it, passes it as an argument, binds
+    # it — never computes with it, compares it or prints it, does not *use* the number
+    _, body_taint_all, _ = shared.cli_taint(fx, cg)
+    for t in list(touched):
+        hb_t = fx.body(t)
+        if t in allowed or hb_t is None or hb_t.get("vis") == "Public":
+            continue
+        tl = body_taint_all.get(hb_t["did"], set())
+        used = []
+        for n_, ps_ in walk_body(hb_t):
+            if n_.get("k") == "Path" and (n_.get("res") or {}).get("k") == "Local" and n_["res"].get("lid") in tl:
+                par = next((q for q in reversed(ps_) if isinstance(q, dict) and q.get("k") not in ("DropTemps", "Use", "AddrOf", "Block", None)), None)
+                pk = (par or {}).get("k")
+                if pk not in ("Call", "MethodCall", "Closure", "Struct", "Tup", None):
+                    used.append(pk)
+        if not used:
+            allowed.add(t)
     # private helpers called only from the allowed functions are part of them
     for t in list(touched):
         hb_t = fx.body(t)
